@@ -9,6 +9,7 @@ import Paroxy.Gen.CompareSpans
 import Paroxy.Spec.NormalizePredicate
 import Paroxy.Proofs.NormalizePredicate
 import Paroxy.Proofs.NormalizeAbbrev
+import Paroxy.Proofs.NormalizeSpace
 namespace Paroxy.Props.C16
 open Paroxy Paroxy.Spec Paroxy.NP Paroxy.Spec.NP
 
@@ -369,5 +370,139 @@ example : renderAbbrev identityKey .identYX { s1 := { upper := true }, p1 := .as
     codesOf "Y== x" := by decide +kernel
 example : renderAbbrev ⟨.y, .x, .x, .y, .lt, .le, .le⟩ .p2 { j1 := [32], p3 := .ascii } = codesOf "y <x<=y" := by
   decide +kernel
+
+/-! ### Decoration words and negation markers separated by ANY white space (round 11, B3)
+
+The theorems above fix the single literal space next to `not` / `is` (the one the code removes with the
+word). The code detects the negation with `not\s+` / `\s+not` but removes the word only next to a literal
+space, and removes `is` only next to a literal space: with a tab, a newline, … the word STAYS in the text
+and is erased by the salvage pipeline with every other character outside `xy<=≤`. So, for formulas and
+abbreviated formulas, ANY decoration text works: `P`, `Q` are arbitrary strings over white space (space,
+tab, LF, VT, FF, CR), `!` and the letters of `not` / `is` in either case (`decoChar`) — unbounded, any
+number of words, any white space between them, outer white space included. The result is the key, and
+the flag is the property's own clause `carriesNeg`: the stripped lower-cased spelling starts with `!`, or
+carries `not` followed by a white-space character, or a white-space character followed by `not`.
+Derived from one normalisation lemma (`keeps_normalizeLow`: every stage of the code only deletes
+characters of the dead outer parts; the salvage pipeline ignores dead characters at both ends). -/
+
+/-- **C16 (formulas, any white space).** -/
+theorem C16_formula_spaced (k : Key) (hk : k ∈ allKeys) (st : FormulaStyle) (hj : st.junkOk = true)
+    {P Q : Str} (hP : P.all decoChar = true) (hQ : Q.all decoChar = true) :
+    normalize names (P ++ renderFormula k st ++ Q) =
+      some (k.codes, carriesNeg (P ++ renderFormula k st ++ Q)) :=
+  spaced_body hk (body_lower_formula k hk st (styleOk_of_junkOk hj)) hP hQ
+
+/-- **C16 (abbreviated formulas, any white space).** -/
+theorem C16_abbrev_spaced (k : Key) (hk : k ∈ allKeys) (ab : Abbrev) (ha : ab.applies k = true)
+    (st : FormulaStyle) (hj : st.junkOk = true) {P Q : Str} (hP : P.all decoChar = true)
+    (hQ : Q.all decoChar = true) :
+    normalize names (P ++ renderAbbrev k ab st ++ Q) =
+      some (k.codes, carriesNeg (P ++ renderAbbrev k ab st ++ Q)) :=
+  spaced_body hk (body_lower_abbrev k hk ab ha st (styleOk_of_junkOk hj)) hP hQ
+
+/-- **C16 (formulas, spaced decorations, explicit flag).** `d` any spaced decoration (`Spaced.ok`: outer white
+space, an optional `!` followed by any white space, any number of prefix words `not` / `is` in any case each
+followed by an ARBITRARY non-empty white-space string, any number of suffix words each preceded by one):
+every formula spelling resolves to its key and is negated exactly when the decoration carries `!`, a prefix
+`not<ws>` or a suffix `<ws>not` (`Spaced.neg`). -/
+theorem C16_formula_spaced_render (k : Key) (hk : k ∈ allKeys) (st : FormulaStyle) (hj : st.junkOk = true)
+    (d : Spaced) (hd : d.ok = true) :
+    normalize names (renderSpaced d (renderFormula k st)) = some (k.codes, d.neg) :=
+  spaced_render hk (body_lower_formula k hk st (styleOk_of_junkOk hj)) d hd
+
+/-- **C16 (abbreviated formulas, spaced decorations, explicit flag).** -/
+theorem C16_abbrev_spaced_render (k : Key) (hk : k ∈ allKeys) (ab : Abbrev) (ha : ab.applies k = true)
+    (st : FormulaStyle) (hj : st.junkOk = true) (d : Spaced) (hd : d.ok = true) :
+    normalize names (renderSpaced d (renderAbbrev k ab st)) = some (k.codes, d.neg) :=
+  spaced_render hk (body_lower_abbrev k hk ab ha st (styleOk_of_junkOk hj)) d hd
+
+/-- The negation variants in the concrete form of the single-space theorems: `not<W>F`, `F<W>not`, `is<W>F`,
+`F<W>is` with `W` ANY non-empty white-space string (`c :: W` / `W ++ [c]`, `c` a white-space character). -/
+theorem C16_formula_spaced_not_prefix (k : Key) (hk : k ∈ allKeys) (st : FormulaStyle) (hj : st.junkOk = true)
+    {ws wN W : Str} {c : Nat} (hws : ws.all isSpace = true) (hN : lower wN = sNot) (hc : isSpace c = true)
+    (hW : W.all isSpace = true) :
+    normalize names (ws ++ (wN ++ c :: W) ++ renderFormula k st) = some (k.codes, true) := by
+  have := C16_formula_spaced_render k hk st hj { outerL := ws, pre := [⟨wN, c :: W⟩] }
+    (by simp [Spaced.ok, SpWord.ok, hws, hN, hc, hW])
+  simpa [renderSpaced, Spaced.before, Spaced.after, Spaced.neg, SpWord.isNot, hN] using this
+
+theorem C16_formula_spaced_not_suffix (k : Key) (hk : k ∈ allKeys) (st : FormulaStyle) (hj : st.junkOk = true)
+    {ws wN W : Str} {c : Nat} (hws : ws.all isSpace = true) (hN : lower wN = sNot) (hc : isSpace c = true)
+    (hW : W.all isSpace = true) :
+    normalize names (renderFormula k st ++ ((W ++ [c]) ++ wN ++ ws)) = some (k.codes, true) := by
+  have := C16_formula_spaced_render k hk st hj { outerR := ws, post := [⟨wN, W ++ [c]⟩] }
+    (by simp [Spaced.ok, SpWord.ok, hws, hN, hc, hW])
+  simpa [renderSpaced, Spaced.before, Spaced.after, Spaced.neg, SpWord.isNot, hN] using this
+
+theorem C16_formula_spaced_is_prefix (k : Key) (hk : k ∈ allKeys) (st : FormulaStyle) (hj : st.junkOk = true)
+    {ws wI W : Str} {c : Nat} (hws : ws.all isSpace = true) (hI : lower wI = sIs) (hc : isSpace c = true)
+    (hW : W.all isSpace = true) :
+    normalize names (ws ++ (wI ++ c :: W) ++ renderFormula k st) = some (k.codes, false) := by
+  have := C16_formula_spaced_render k hk st hj { outerL := ws, pre := [⟨wI, c :: W⟩] }
+    (by simp [Spaced.ok, SpWord.ok, hws, hI, hc, hW, sIs])
+  simpa [renderSpaced, Spaced.before, Spaced.after, Spaced.neg, SpWord.isNot, hI, sIs, sNot] using this
+
+theorem C16_formula_spaced_is_suffix (k : Key) (hk : k ∈ allKeys) (st : FormulaStyle) (hj : st.junkOk = true)
+    {ws wI W : Str} {c : Nat} (hws : ws.all isSpace = true) (hI : lower wI = sIs) (hc : isSpace c = true)
+    (hW : W.all isSpace = true) :
+    normalize names (renderFormula k st ++ ((W ++ [c]) ++ wI ++ ws)) = some (k.codes, false) := by
+  have := C16_formula_spaced_render k hk st hj { outerR := ws, post := [⟨wI, W ++ [c]⟩] }
+    (by simp [Spaced.ok, SpWord.ok, hws, hI, hc, hW, sIs])
+  simpa [renderSpaced, Spaced.before, Spaced.after, Spaced.neg, SpWord.isNot, hI, sIs, sNot] using this
+
+/-- **C16 (names, white space after `not `).** For names the code is NOT insensitive to the white space:
+what is tolerated is any white space AFTER the literal space of `not ` (it is stripped after the word is
+removed). Every case of the name and of `not`, any outer white space. -/
+theorem C16_names_spaced (n : Codes) (k : Key) (h : (n, k) ∈ aliases) {w ws ws' wN W : Str} (hw : lower w = n)
+    (hN : lower wN = sNot) (hws : ws.all isSpace = true) (hws' : ws'.all isSpace = true)
+    (hW : W.all isSpace = true) :
+    normalize names (ws ++ wN ++ 32 :: W ++ w ++ ws') = some (k.codes, true) :=
+  name_not_spaced n k h hw hN hws hws' hW
+
+/-- **C16 (names, white space before ` not`).** Symmetrically, any white space BEFORE the literal space of a
+trailing ` not`. -/
+theorem C16_names_spaced_suffix (n : Codes) (k : Key) (h : (n, k) ∈ aliases) {w ws ws' wN W : Str}
+    (hw : lower w = n) (hN : lower wN = sNot) (hws : ws.all isSpace = true) (hws' : ws'.all isSpace = true)
+    (hW : W.all isSpace = true) :
+    normalize names (ws ++ w ++ W ++ 32 :: wN ++ ws') = some (k.codes, true) :=
+  name_not_suffix_spaced n k h hw hN hws hws' hW
+
+/-- **C16 (names, any white space after `!`).** -/
+theorem C16_names_spaced_bang (n : Codes) (k : Key) (h : (n, k) ∈ aliases) {w ws ws' W : Str} (hw : lower w = n)
+    (hws : ws.all isSpace = true) (hws' : ws'.all isSpace = true) (hW : W.all isSpace = true) :
+    normalize names (ws ++ 33 :: W ++ w ++ ws') = some (k.codes, true) :=
+  name_bang_spaced n k h hw hws hws' hW
+
+/-- **The limits of the code on NAMES** (finding B3, not a violation of the theorems above): a white-space
+character other than the literal space next to `not`, or more than one white-space character next to
+`is`, makes a decorated name a `ValueError`, although the same decoration is accepted around a formula. -/
+theorem C16_names_spaced_limits :
+    normalize names (codesOf "not\tafter") = none ∧ normalize names (codesOf "after\tnot") = none ∧
+    normalize names (codesOf "is  after") = none ∧ normalize names (codesOf "after  is") = none ∧
+    normalize names (codesOf "is\tafter") = none ∧ normalize names (codesOf "not\nafter") = none ∧
+    normalize names (codesOf "not  after") = some (codesOf "y≤y≤x≤x", true) ∧
+    normalize names (codesOf "after  not") = some (codesOf "y≤y≤x≤x", true) ∧
+    normalize names (codesOf "not\tx<y") = some (codesOf "x≤x<y≤y", true) ∧
+    normalize names (codesOf "is  x<y") = some (codesOf "x≤x<y≤y", false) := by
+  decide +kernel
+
+-- Non-vacuity: `\t Not\n\ris\x0b(x1 <= Y2)\x0c\tNOT ` is a spaced rendering of an abbreviation of `x≤x≤y≤y`, negated.
+example : Spaced.ok ⟨[9, 32], none, [⟨codesOf "Not", [10, 13]⟩, ⟨codesOf "is", [11]⟩], [⟨codesOf "NOT", [12, 9]⟩], [32]⟩ = true := by
+  decide +kernel
+example : renderSpaced ⟨[9, 32], none, [⟨codesOf "Not", [10, 13]⟩, ⟨codesOf "is", [11]⟩], [⟨codesOf "NOT", [12, 9]⟩], [32]⟩
+    (codesOf "(x1 <= Y2)") = codesOf "\t Not\n\ris\x0b(x1 <= Y2)\x0c\tNOT " := by decide +kernel
+example : Spaced.neg ⟨[], some [9], [⟨codesOf "IS", [10]⟩], [], []⟩ = true := by decide +kernel
+example : Spaced.neg ⟨[], none, [⟨codesOf "IS", [10]⟩], [⟨codesOf "is", [9, 9]⟩], []⟩ = false := by decide +kernel
+-- Non-vacuity: decoration texts, and the flag of the property's clause on them.
+example : (codesOf " Is\tNOT\n").all decoChar = true := by decide +kernel
+example : (codesOf "\x0b\x0cnot").all decoChar = true := by decide +kernel
+example : carriesNeg (codesOf "is\tnot\nx<y") = true := by decide +kernel
+example : carriesNeg (codesOf "x<y\r\x0bNot ") = true := by decide +kernel
+example : carriesNeg (codesOf "is\t\tx<y \nis") = false := by decide +kernel
+example : carriesNeg (codesOf "\t!\nx<y") = true := by decide +kernel
+-- `isnot x<y` carries no marker in the sense of the clause? It does: `not` followed by a space.
+example : carriesNeg (codesOf "isnot x<y") = true := by decide +kernel
+example : carriesNeg (codesOf "notx<y") = false := by decide +kernel
+example : (codesOf "after", (⟨.y, .y, .x, .x, .le, .le, .le⟩ : Key)) ∈ aliases := by decide +kernel
 
 end Paroxy.Props.C16
